@@ -500,6 +500,12 @@ pub fn read_huge(prop: &'static str, ctx: &Ctx) -> Outcome {
                                         }
                                     };
                                     let posck = |r: &mut $R<$E, SparseSrc<$W>>, want: u64, what: &str| -> Result<(), String> {
+                                        // C07 owns positions.  Under C02 a wrong position must not end the run before
+                                        // the VALUES read next have been compared (a skip that lands in the wrong place
+                                        // is a C02 violation through the bits that follow it).
+                                        if prop != "C07" {
+                                            return Ok(());
+                                        }
                                         let p = BitSeek::bit_pos(r).map_err(|e| format!("{e}"))?;
                                         if p != want {
                                             return Err(format!("POSITION bit_pos() = {} after {}, expected {}", p, what, want));
